@@ -25,9 +25,11 @@ def run(ctx: Ctx):
         fams = [("inject", dict(PLen=2, VLen=3, PAlpha=small_p, VAlpha=small_v)),
                 ("value", dict(PLen=1, VLen=3, PAlpha=ALPHA, VAlpha=ALPHA))]
     else:
-        fams = [("inject", dict(PLen=2, VLen=3, PAlpha=ALPHA, VAlpha=ALPHA)),
-                ("inject", dict(PLen=2, VLen=4, PAlpha=small_p, VAlpha=small_v)),
-                ("value", dict(PLen=1, VLen=5, PAlpha=ALPHA, VAlpha=ALPHA))]
+        mid = {97, 59, 58, 44, 34, 92, 37, 61, 10}
+        fams = [("inject", dict(PLen=2, VLen=3, PAlpha=mid, VAlpha=mid)),
+                ("inject", dict(PLen=1, VLen=3, PAlpha=ALPHA, VAlpha=ALPHA)),
+                ("inject", dict(PLen=2, VLen=4, PAlpha=small_p, VAlpha={97, 59, 58, 92, 61})),
+                ("value", dict(PLen=1, VLen=4, PAlpha=ALPHA, VAlpha=ALPHA))]
     for fam, k in fams:
         r = ctx.mc("MC_ContentLine", cfg_text(spec="Spec", constants={
             "LLen": 1, "Family": fam, **k},
